@@ -11,6 +11,7 @@
 #include "stdinc.h"
 
 #include "toolutils.h"
+#include "verif_hooks.h"
 
 #include "addrspace.h"
 #include "as_endian.h"
@@ -434,7 +435,7 @@ Boolean FilterOK(Byte Header) {
     int z;
 
     if (DoFilter) {
-        for (z = 0; z < FilterCnt; z++) {
+        for (z = 0; z < FilterCnt; z++) VERIF_LOOP(toolutils_filterok) {
             if (Header == FilterBytes[z]) {
                 return True;
             }
